@@ -326,5 +326,63 @@ func Monitor(res *Result) []Finding {
 			hist[pk] = append(hist[pk], cur)
 		}
 	}
+	// 4. a batch re-sent AS A WHOLE by retryBatch is the batch that was sent: same epoch, same first sequence, same
+	// messages. This holds in every history class (retryBatch hands the very same partition set to the bridge; the known
+	// findings concern messages re-queued individually), so the signature does not carry the class (adversary change C05-12).
+	for _, e := range res.Events {
+		if e.Kind != "retryBatch.start" {
+			continue
+		}
+		for _, ps := range e.Set {
+			var ids []int64
+			for _, m := range ps.Msgs {
+				ids = append(ids, m.ID)
+			}
+			if len(ids) == 0 {
+				continue
+			}
+			pk := tpKey(ps.Topic, ps.Partition)
+			var orig, again *BatchLog
+			origReq, againReq := -1, -1
+			for ri := range res.Requests {
+				r := &res.Requests[ri]
+				pos, known := trig.reqPos[r.Index]
+				for bi := range r.Batches {
+					b := &r.Batches[bi]
+					if tpKey(b.Topic, b.Partition) != pk || !same(b.IDs, ids) {
+						continue
+					}
+					if known && pos < e.Seq {
+						orig, origReq, again, againReq = b, r.Index, nil, -1
+					} else if orig != nil && again == nil && r.Index > origReq && known {
+						// only a resend made by retryBatch itself: between retryBatch.start and this request's bridge.send none
+						// of the messages travelled on its own (a set that could not be written is re-queued message by message,
+						// and a batch re-formed from those messages belongs to the known findings, not here)
+						alone := false
+						for _, x := range res.Events {
+							if x.Seq > e.Seq && x.Seq < pos && x.Msg != nil {
+								for _, id := range ids {
+									alone = alone || x.Msg.ID == id
+								}
+							}
+						}
+						if !alone {
+							again, againReq = b, r.Index
+						} else {
+							orig = nil
+						}
+					}
+				}
+			}
+			if orig != nil && again != nil && (orig.Epoch != again.Epoch || orig.First != again.First) {
+				sig := "c05:retry-batch:whole-batch-resend-differs:" + sizes.Sizes()
+				if !seen[sig] {
+					seen[sig] = true
+					out = append(out, Finding{sig, fmt.Sprintf("%s: retryBatch re-sent the batch %v in request %d as (epoch %d, first %d); request %d had sent it as (epoch %d, first %d)",
+						pk, ids, againReq, again.Epoch, again.First, origReq, orig.Epoch, orig.First)})
+				}
+			}
+		}
+	}
 	return out
 }
